@@ -41,7 +41,7 @@ class C12(UdpCheck):
     budget = {"quick": 75, "thorough": 900}
     ncases = {"quick": 420, "thorough": 12000}
     per_run_wall_s = 400
-    chunk = 2
+    chunk = 1
     rule = ("case = (keep-alive, connection/handshake/message timeouts, server tick, client frame rate, latency/jitter, clock "
             "offset/skew) drawn under the statement's constraint keep-alive + tick + latency < peer timeout, and one scenario: "
             "idle link for 10 s .. 2 h of virtual time (some cross the 16-bit sequence wrap on keep-alives alone); link cut at "
